@@ -45,7 +45,18 @@
 #define NWORDS   (1 + H * STRIDE + 1)
 #define NSLOTS   (NWORDS * PPW)
 
-static uint32_t buf[NWORDS], buf2[NWORDS];
+/* a4/a8 code addresses bytes, a1 code words: give the buffer the element type the
+ * code uses (a byte view of a word array costs the solver a factor > 10) */
+#if N == 1
+typedef uint32_t cell_t;
+#define CELLS    NWORDS
+#define CPW      1
+#else
+typedef uint8_t cell_t;
+#define CELLS    (NWORDS * 4)
+#define CPW      4
+#endif
+static cell_t buf[CELLS] __attribute__ ((aligned (4))), buf2[CELLS] __attribute__ ((aligned (4)));
 
 #if VC_ACC
 static int acc_reads, acc_writes;
@@ -61,14 +72,14 @@ static void acc_write (void *p, uint32_t v, int size)
 }
 #endif
 
-static void setup (pixman_image_t *im, uint32_t *b, int width)
+static void setup (pixman_image_t *im, cell_t *b, int width)
 {
     memset (im, 0, sizeof *im);
     im->type = BITS;
     im->bits.format = FMT;
     im->bits.width = width;
     im->bits.height = H;
-    im->bits.bits = b + 1;
+    im->bits.bits = (uint32_t *) (b + CPW);
     im->bits.rowstride = STRIDE;
 #if VC_ACC
     im->bits.read_func = acc_read;
@@ -102,16 +113,35 @@ void harness (void)
     sf_i64 expect;
 
     for (i = 0; i < NWORDS; i++)
-        buf[i] = init[i % 10] + (i >= 10 ? 0x9e3779b9u * (i / 10) : 0);
+    {
+        uint32_t w = init[i % 10] + (i >= 10 ? 0x9e3779b9u * (i / 10) : 0);
+#if N == 1
+        buf[i] = w;
+#else
+        buf[4 * i] = w & 0xff; buf[4 * i + 1] = (w >> 8) & 0xff; buf[4 * i + 2] = (w >> 16) & 0xff; buf[4 * i + 3] = w >> 24;
+#endif
+    }
 
+#ifdef VC_WLIM
+    VH_ASSUME (in_width >= 1 && in_width <= VC_WLIM);
+#else
     VH_ASSUME (in_width >= 1 && in_width <= VC_WMAX);
+#endif
     VH_ASSUME (SF_INT (in_y) >= 0 && SF_INT (in_y) < H && SF_ON_ROW (N, in_y));
     VH_ASSUME (in_g >= 0 && in_g < NSLOTS);
+#ifdef VC_FIXROW
+    VH_ASSUME (SF_INT (in_y) == VC_FIXROW);
+    row = VC_FIXROW;
+#else
     row = (int) SF_INT (in_y);
+#endif
+#ifdef VC_GROW
+    VH_ASSUME (in_g / PPW >= 1 + row * STRIDE && in_g / PPW < 1 + row * STRIDE + ROWW);
+#endif
 
     gw = in_g / PPW;                        /* word of the ghost slot */
     gs = in_g % PPW;                        /* slot inside the word */
-    old = GET (buf + gw, gs);
+    old = GET (buf + gw * CPW, gs);
     /* is the ghost slot pixel px < width of the rasterised row? */
     in_row = (gw >= 1 + row * STRIDE && gw < 1 + row * STRIDE + ROWW);
     px = (gw - (1 + row * STRIDE)) * PPW + gs;
@@ -130,10 +160,28 @@ void harness (void)
 #endif
 #endif
     rast (&im, in_lx, in_rx, in_y);
-    new_ = GET (buf + gw, gs);
+    new_ = GET (buf + gw * CPW, gs);
     if (in_row)
     {
+#ifdef VC_MID
+        {
+    sf_i64 clx = in_lx < 0 ? 0 : in_lx;
+    sf_i64 crx = SF_INT (in_rx) >= in_width ? (sf_i64) in_width * 65536 - 1 : in_rx;
+    sf_i64 mid;
+    if (crx <= clx) mid = 0;
+    else {
+        sf_i64 lxi = SF_INT (clx), rxi = SF_INT (crx);
+        if (px < lxi || px > rxi) mid = 0;
+        else if (lxi == rxi) mid = SF_BELOW_4 (SF_FRAC (crx)) - SF_BELOW_4 (SF_FRAC (clx));
+        else if (px == lxi) mid = SF_NX (N) - SF_BELOW_4 (SF_FRAC (clx));
+        else if (px == rxi) mid = SF_BELOW_4 (SF_FRAC (crx));
+        else mid = SF_NX (N);
+    }
+        expect = SF_SAT (N, (sf_i64) old + mid);
+        }
+#else
         expect = SF_SAT (N, (sf_i64) old + SF_COUNT (N, px, in_lx, in_rx));
+#endif
         VH_CHECK ("post.pixel_is_saturated_sample_count", (sf_i64) new_ == expect);
     }
     else
@@ -146,13 +194,12 @@ void harness (void)
 #if N == 1
         VH_ASSUME (in_rx <= 0x7fffffff - 0x7fff);
 #endif
-        for (i = 0; i < NWORDS; i++)
-            buf2[i] = buf[i];
+        memcpy (buf2, buf, sizeof buf);
         setup (&im2, buf2, in_width);
         rast (&im, in_lx, in_mx, in_y);
         rast (&im, in_mx, in_rx, in_y);
         rast (&im2, in_lx, in_rx, in_y);
-        VH_CHECK ("post.abutting_spans_tile", GET (buf + gw, gs) == GET (buf2 + gw, gs));
+        VH_CHECK ("post.abutting_spans_tile", GET (buf + gw * CPW, gs) == GET (buf2 + gw * CPW, gs));
         /* spec-level lemma behind it (before saturation) */
         VH_CHECK ("lemma.count_is_additive", SF_COUNT (N, px, in_lx, in_mx) + SF_COUNT (N, px, in_mx, in_rx) == SF_COUNT (N, px, in_lx, in_rx));
     }
